@@ -304,6 +304,9 @@ class Interp:
         return heap[key]
 
     def field_owner(self, cls: str, fname: str) -> Optional[str]:
+        if cls == "*":
+            owners = self.owners_of_field(fname)
+            return owners[0] if len(owners) == 1 else None
         fi = self.w.find_field(cls, fname)
         if fi is not None:
             return fi.owner
@@ -334,7 +337,10 @@ class Interp:
         """Well-formedness facts of a value read from the heap / created as an input."""
         if isinstance(v, SV):
             if isinstance(v.ty, TObj):
-                self.assume(z3.Select(self.alive, v.term))
+                if not self.binder_stack:
+                    # (under a binder the state-dependent aliveness fact would become a guard that
+                    # differs between pre- and post-state copies of the same formula)
+                    self.assume(z3.Select(self.alive, v.term))
                 self.assume_class(v)
             elif isinstance(v.ty, TSeq) and v.ty.bytes_:
                 i = z3.Int("wf_i")
@@ -443,6 +449,17 @@ class Interp:
             if ty is TAny:
                 return SV(TAny, self.to_any(v))
             raise Unsupported(f"cannot coerce {v.ty} to {ty}")
+        if isinstance(v, VGen) and v.kind == "repeat_empty":
+            # [[]] * n : n rows, all empty
+            t = ty.inner if isinstance(ty, TOpt) else ty
+            if not (isinstance(t, TSeq) and isinstance(t.elem, TSeq)):
+                raise Unsupported(f"cannot coerce [[]] * n to {ty}")
+            r = self.fresh("rows", t.sort())
+            i = self.bound("rwi", z3.IntSort())
+            n = z3.If(v.n > 0, v.n, z3.IntVal(0))
+            self.assume(z3.Length(r) == n)
+            self.assume(z3.ForAll([i], z3.Implies(z3.And(i >= 0, i < n), z3.Length(r[i]) == 0)))
+            return self.coerce(SV(t, r), ty)
         if isinstance(v, VGen) and v.kind in ("emptydict", "emptyset"):
             t = ty.inner if isinstance(ty, TOpt) else ty
             if v.kind == "emptydict" and isinstance(t, TDict):
